@@ -200,7 +200,27 @@ def make_subclasses():
             """Sets the ratio."""
             self._ratio = value
 
-    return SubA, SubB
+    class SubC(TaskPool):
+        """Member names with upper-case letters, and two members that differ only by case."""
+
+        def runJob(self, count: int = 1) -> str:    # noqa: N802
+            """Runs a job."""
+            return f"ran {count}"
+
+        @property
+        def maxLoad(self) -> int:    # noqa: N802
+            """Maximum load."""
+            return 7
+
+        def info(self) -> str:
+            """Lower-case info."""
+            return "info"
+
+        def INFO(self) -> str:    # noqa: N802
+            """Upper-case info."""
+            return "INFO"
+
+    return SubA, SubB, SubC
 
 
 def new_pool(cls, size=3):
